@@ -262,6 +262,51 @@ def do_replay(mod, pid, path):
 
 
 # ---------------------------------------------------------------------
+#   cross-validation of the fork-from-zygote model against a truly fresh
+#   interpreter (other hash seed, no pool, nothing imported before)
+# ---------------------------------------------------------------------
+
+def cross_validate(modname, batch, plans_results, k):
+    """Re-evaluates up to k (plan, result) pairs in ONE fresh interpreter and
+    compares verdict and event-log digest.  A disagreement is a harness error
+    (the simulation would not be a faithful model of a fresh process)."""
+    sample = [(p, r) for p, r in plans_results if r['verdict'] == 'ok'][:k]
+    if not sample:
+        return
+    code = ('import sys, json, importlib\n'
+            'sys.path.insert(0, %r)\n'
+            'mod = importlib.import_module(%r)\n'
+            'from sim import runner\n'
+            'runner.preload()\n'
+            'plans = json.load(sys.stdin)\n'
+            'out = []\n'
+            'for p in plans:\n'
+            '    r = mod.evaluate(p)\n'
+            '    out.append([r["verdict"], r.get("digest")])\n'
+            'print("XVAL " + json.dumps(out))\n' % (VERIF, modname))
+    env = dict(os.environ)
+    env.update({'PYTHONHASHSEED': '97531', 'PYTHONDONTWRITEBYTECODE': '1',
+                'PYTHONPATH': VERIF, 'VERIF_JOBS': '1'})
+    p = subprocess.run([sys.executable, '-c', code], env=env,
+                       input=json.dumps([pl for pl, _ in sample]).encode(),
+                       stdout=subprocess.PIPE, stderr=subprocess.PIPE)
+    line = [l for l in p.stdout.decode().split('\n') if l.startswith('XVAL ')]
+    if p.returncode != 0 or not line:
+        batch.harness.append((None, harness(
+            'cross-validation interpreter failed: ' + p.stderr.decode()[-1500:])))
+        return
+    got = json.loads(line[0][5:])
+    for (pl, r), (v, d) in zip(sample, got):
+        if v != r['verdict'] or d != r['digest']:
+            batch.harness.append((pl, harness(
+                'cross-validation: plan %s gives %s/%s in the pool but %s/%s '
+                'in a fresh interpreter' % (pl.get('_index'), r['verdict'],
+                                            r['digest'][:12], v, (d or '')[:12]))))
+        else:
+            batch.cross_validated += 1
+
+
+# ---------------------------------------------------------------------
 #   finishing a batch: violations -> minimise -> replay file -> verdict
 # ---------------------------------------------------------------------
 
